@@ -26,7 +26,8 @@ interleaving (`Merge`), the step machine of `Model/C01.lean` consumes it.
 * `manual_text_commands_per_key_partial`   — `route.Parse (listKV …)` = the commands of the values, in key order;
                                         forced hypothesis: a key holds no newline (negation: `key_with_newline_injects`).
 * composed with C14 / Parse / Route: `end_to_end_operator_on_top`, `end_to_end_iff_healthy`,
-  `end_to_end_unhealthy_absent`.
+  `end_to_end_unhealthy_absent`, and — with arbitrary catalog lookups failing in every round —
+  `end_to_end_sound_at_every_table`.
 -/
 namespace Fabio.Props.C01Sys
 open Fabio Fabio.Model.C01 Fabio.Model.C01Sys Fabio.Props.C01
@@ -544,6 +545,114 @@ theorem end_to_end_unhealthy_absent (s0 : State Table) (before later : List Even
 
 end composed
 
+/-! ### failing catalog lookups: soundness of every table ever installed -/
+
+section faults
+open Fabio.Model.C01Compose Fabio.Props.C01Compose
+open Fabio.Model.Route (Env RouteDef Table Target)
+open Fabio.Model.C05Spec (abs key newTarget specApply Spec)
+open Fabio.Model.C14 (Cfg intents expressibleB wantDef)
+open Fabio.Model.Parse (parse loadTable ParseFloat)
+open Fabio.Lemmas.C14 (core)
+variable (env : Env) (pf : ParseFloat) (cfg : Cfg) (st : List Str) (strict : Bool)
+
+/-- the catalog as a round sees it in which the lookups `fails` selects fail: `serviceConfig` returns nil for them -/
+def restrict (fails : Str → Bool) (catalog : Str → List Instance) : Str → List Instance :=
+  fun n => if fails n then [] else catalog n
+
+/-- a round of `Watch`: the state the health answer describes and the catalog lookups that fail in it -/
+abbrev Round := RegState × (Str → Bool)
+
+/-- the text of a round -/
+def roundText (r : Round) : Str := joinLines (svcLinesF env pf cfg st strict r.1.checks r.1.catalog r.2)
+
+theorem svcLinesF_eq_restrict (checks : List Check) (catalog : Str → List Instance) (fails : Str → Bool) :
+    svcLinesF env pf cfg st strict checks catalog fails =
+      svcLines env pf cfg st strict checks (restrict fails catalog) := by
+  unfold svcLinesF svcLines watchOnceF watchOnce makeConfigLinesF makeConfigLines
+  congr 1
+  apply Fabio.Lemmas.C01Sys.flatMap_congr'
+  intro name _
+  congr 1
+  unfold joinedF joined restrict
+  by_cases hf : fails name = true
+  · simp [hf]
+  · simp [hf]
+
+theorem roundText_eq (r : Round) :
+    roundText env pf cfg st strict r =
+      textOf env pf cfg st strict { checks := r.1.checks, catalog := restrict r.2 r.1.catalog } := by
+  unfold roundText textOf svcText
+  rw [svcLinesF_eq_restrict]
+
+theorem wf_restrict {checks : List Check} {catalog : Str → List Instance} (wf : WellFormed cfg checks catalog)
+    (fails : Str → Bool) : WellFormed cfg checks (restrict fails catalog) where
+  byName := by
+    intro name i hi
+    unfold restrict at hi
+    split at hi
+    · cases hi
+    · exact wf.byName name i hi
+  tags := by
+    intro c hc name i hi
+    unfold restrict at hi
+    split at hi
+    · cases hi
+    · exact wf.tags c hc name i hi
+
+theorem eligible_of_restrict {checks : List Check} {catalog : Str → List Instance} (fails : Str → Bool)
+    (i : Instance) (h : Eligible st strict checks (restrict fails catalog) i) : Eligible st strict checks catalog i := by
+  obtain ⟨h1, h2, h3, h4⟩ := h
+  refine ⟨h1, ?_, h3, h4⟩
+  unfold restrict at h2
+  split at h2
+  · cases h2
+  · exact h2
+
+/-- **Soundness of every table ever installed, failing lookups included.** Rounds `obs` of the monitor — each a
+registry state and an arbitrary set of catalog lookups that fail in that round — and texts `kvTexts` of the KV
+watcher, interleaved in any way. Every table handed to `SetTable` at any point is: commands of the manual text current
+then, applied on top of a service table each of whose targets is what a routing tag of an instance asks for that is
+`Eligible` — healthy under the configured rule — *in the registry state of one of the observed rounds*. Whatever
+fails, no table ever holds a service target that no observed state justifies. (What the stream `c01.pipeline` demands
+at every observation point, class `unhealthy-target-after-observation`.) -/
+theorem end_to_end_sound_at_every_table (obs : List Round) (kvTexts : List Str)
+    (wf : ∀ r ∈ obs, WellFormed cfg r.1.checks r.1.catalog)
+    (es : List Event) (e : Event)
+    (hm : Merge (es ++ [e]) (svcEvents (watchTexts (roundText env pf cfg st strict) obs)) (manEvents kvTexts))
+    (t : Table)
+    (hinst : (stepOut (loadOpt env pf) (run (loadOpt env pf) (init ([] : Table)) es) e).2 = some t) :
+    ∃ tS, (∃ dsM : List RouteDef, dsM.foldlM (specApply env) (abs tS) = .ok (abs t)) ∧
+      ∀ h p y, y ∈ abs tS h p → ∃ r ∈ obs, ∃ i, Eligible st strict r.1.checks r.1.catalog i ∧
+        ∃ it ∈ intents cfg (regOf i), ∃ d u, wantDef pf it = some d ∧ env.normURL d.dst = some u ∧
+          key d.src = (h, p) ∧ core y = core (newTarget d u) := by
+  obtain ⟨S, M, hS, _, hb⟩ :=
+    system_installed_from_observed (loadOpt env pf) (roundText env pf cfg st strict) ([] : Table) obs kvTexts es e hm t hinst
+  have hb' := (loadOpt_some env pf _ t).1 hb
+  rcases hS with rfl | ⟨r, hr, rfl⟩
+  · -- the initial empty service text: the text of the empty registry
+    have hempty : ([] : Str) = svcText env pf cfg st strict [] (fun _ => []) := by rfl
+    have wfE : WellFormed cfg [] (fun _ => ([] : List Instance)) :=
+      ⟨fun _ _ h => absurd h List.not_mem_nil, fun _ h => absurd h List.not_mem_nil⟩
+    obtain ⟨tS, hload⟩ := svcText_loads env pf cfg st strict [] (fun _ => []) wfE.byName
+    rw [← hempty] at hload
+    obtain ⟨dsM, _, hf⟩ := operator_on_top env pf _ M tS t hload hb'
+    refine ⟨tS, ⟨dsM, hf⟩, ?_⟩
+    intro h p y hy
+    rw [hempty] at hload
+    obtain ⟨i, ⟨_, hcat, _⟩, _⟩ := table_sound env pf cfg st strict [] (fun _ => []) wfE tS hload h p y hy
+    cases hcat
+  · rw [roundText_eq] at hb'
+    have wf' := wf_restrict cfg (wf r hr) r.2
+    obtain ⟨tS, hload⟩ := svcText_loads env pf cfg st strict r.1.checks (restrict r.2 r.1.catalog) wf'.byName
+    obtain ⟨dsM, _, hf⟩ := operator_on_top env pf _ M tS t hload hb'
+    refine ⟨tS, ⟨dsM, hf⟩, ?_⟩
+    intro h p y hy
+    obtain ⟨i, hel, rest⟩ := table_sound env pf cfg st strict r.1.checks (restrict r.2 r.1.catalog) wf' tS hload h p y hy
+    exact ⟨r, hr, i, eligible_of_restrict st strict r.2 i hel, rest⟩
+
+end faults
+
 /-! non-vacuity of the composed statements: the two-node registry of `Props/C01Compose.lean` (`web-1` on `n1`
 passing, `web-2` on `n2` critical) as the final state, a state with no checks at all before it -/
 
@@ -567,6 +676,11 @@ example : -- the hypotheses of `end_to_end_operator_on_top` hold for a concrete 
         (fun kv => (kv.1, kv.2.map (fun r => (r.path, r.targets.map (·.url))))) =
       [("foo.com".toList, [("/".toList, ["http://10.0.0.1:8000/".toList])]),
        ("".toList, [("/s".toList, ["http://10.9.9.9:80/".toList])])] := by decide
+
+example : -- rounds with failing lookups: the failing service contributes nothing, another name changes nothing
+    roundText envW pfW cfgW stW false (stateW, fun n => n == "web".toList) = [] ∧
+    roundText envW pfW cfgW stW false (stateW, fun n => n == "db".toList) = textOf envW pfW cfgW stW false stateW := by
+  decide
 
 end witness
 
